@@ -58,13 +58,13 @@ def generate(rng, tier, focus):
             acts.append(rng.choice([["emit", 0, n(rng.choice(items))], ["emit", 0, n(rng.choice(items))], ["unsub", rng.randrange(2)], ["emit", 0, C]]))
         cases.append((scn(subjects=[kind], handles=2, script_=acts), {"k": "hot-two"}))
     # hot source behind a multi-source operator
-    for _ in range(600 if thorough else 100):
-        nm = rng.choice(["merge", "zip", "amb", "take_until", "skip_until", "sample", "concat", "flat_map"])
+    for _ in range(1800 if thorough else 300):
+        nm = rng.choice(["merge", "zip", "amb", "amb", "take_until", "skip_until", "sample", "concat", "flat_map", "combine_latest", "sequence_equal"])
         p = scen.multi_op(rng, nm, ["hot", 0], [["hot", 1]])
         acts = [sub(0, scen.rand_chain(rng, p, rng.choice([0, 1])))]
         for _ in range(rng.randrange(2, 7)):
-            acts.append(["emit", rng.randrange(2), rng.choice([n(1), n(2), n(3), C])])
-        acts.insert(rng.randrange(1, len(acts) + 1), ["unsub", 0])
+            acts.append(["emit", rng.randrange(2), rng.choice([n(1), n(2), n(3), C, e(4)])])
+        acts.insert(rng.randrange(1, len(acts) + 1) if rng.random() < 0.6 else len(acts), ["unsub", 0])
         cases.append((scn(subjects=[["subject"], ["subject"]], handles=1, script_=acts), {"k": "hot-multi"}))
     # cold: emissions come from a hot subject so that the Subscription exists; the subscriber leaves from inside callback i
     for _ in range(1500 if thorough else 220):
